@@ -38,6 +38,42 @@ class InjectedBase(BaseException):
     """Injected failure that is NOT an Exception (e.g. a cancellation-like error raised inside a node)."""
 
 
+# What a user function raises is not always a plain Exception subclass: the CLASS of an injected failure varies with the node, too.
+# StopIteration (a `next()` on an exhausted iterator escaping the function) is special to generators, coroutines and asyncio
+# futures; KeyError / OSError have reprs and constructors of their own; CancelledError is what a cancelled inner await raises.
+class InjectedStop(Injected, StopIteration):
+    pass
+
+
+class InjectedLookup(Injected, KeyError):
+    pass
+
+
+class InjectedOS(Injected, TimeoutError):
+    pass
+
+
+import asyncio as _asyncio  # noqa: E402
+
+
+class InjectedCancel(InjectedBase, _asyncio.CancelledError):
+    pass
+
+
+FAULT_CLASSES = [Injected, Injected, Injected, Injected, InjectedStop, InjectedLookup, InjectedOS]
+FAULT_BASE_CLASSES = [InjectedBase, InjectedBase, InjectedCancel]
+FAULT_CLASS_COUNTS: Counter = Counter()
+
+
+def fault_for(node, base=False):
+    import zlib
+
+    classes = FAULT_BASE_CLASSES if base else FAULT_CLASSES
+    cls = classes[zlib.crc32(("cls:%r" % (node,)).encode()) % len(classes)]
+    FAULT_CLASS_COUNTS[cls.__name__] += 1
+    return cls(node)
+
+
 class State:
     fault_base = False  # raise InjectedBase instead of Injected for node faults
     faults: set = set()  # node ids (tawazi side) that must raise
@@ -60,6 +96,10 @@ def reset_counts():
 def shaped(base, shape):
     if shape is None:
         return base
+    if shape[0] == "touchy":
+        from .sym import Touchy
+
+        return Touchy(base)  # a value that may only be passed on
     if shape[0] == "none":
         return None  # a function that legitimately returns None (side-effect only / "nothing found")
     if shape[0] == "tuple":
@@ -102,9 +142,7 @@ def mkprobe(name, shape=None, setup=False):
         if (node is not None and node in State.faults) or name in State.fail_fns or (
                 State.fail_args and any(x in State.fail_args for x in a if isinstance(x, Sym))):
             B.ev("FEXIT", token=tok, node=node, fn=name, ok=False)
-            if State.fault_base:
-                raise InjectedBase(node)
-            raise Injected(node)
+            raise fault_for(node, base=State.fault_base)
         if setup:
             base = Sym(name, a, tuple(sorted(k.items())), ("inv", next(State.inv)))
         else:
